@@ -199,6 +199,11 @@ class Check:
         extra = rep.get("nfail", 0) - len(rep.get("failures", []))
         if extra > 0:
             self.notes.append("%d further failures not listed individually" % extra)
+            self.unlisted = getattr(self, "unlisted", 0) + extra
+            listed = set(f["key"] for f in rep.get("failures", []))
+            for k, v in rep.get("counters", {}).items():
+                if k.startswith("fail:") and k[5:] not in listed and not k[5:].startswith("DRIFT") and "DRIFT" not in k:
+                    self.fail(prefix + k[5:], {"count": v, "note": "no example recorded"})
         for s in rep.get("samples", []):
             if len(self.cov["samples"]) < 6:
                 self.cov["samples"].append(s)
